@@ -739,7 +739,10 @@ func campaignCase(scratch string, hist []hop) *lib.ImplFailure {
 	}
 	if ea.updClass != "HOk" || ea.creClass != "HOk" || ea.updRev <= maxRev || ea.creRev <= maxRev {
 		return &lib.ImplFailure{What: fmt.Sprintf("campaign: requests admitted as soon as IsLeader() is true: guarded update of %s (true revision %d) -> %s rev %d, create -> %s rev %d; stored maximum %d: the leader flag was visible before the base was installed",
-			probeKey, probeRev, ea.updClass, ea.updRev, ea.creClass, ea.creRev, maxRev)}
+			probeKey, probeRev, ea.updClass, ea.updRev, ea.creClass, ea.creRev, maxRev),
+			Case: map[string]interface{}{"engine": "memkv", "old_leader_history": hist, "then": "old leader releases the lock (Get, Update to empty holder); second Backend runs leader.NewLeaderElection(...).Campaign() with the initial-version gauge delayed by 300ms; a client polls IsLeader() and at once issues the two requests",
+				"max_stored_revision": maxRev, "guarded_update": map[string]interface{}{"key": probeKey, "expected_revision": probeRev, "result": ea.updClass, "revision": ea.updRev},
+				"create": map[string]interface{}{"key": prefix + "/early", "result": ea.creClass, "revision": ea.creRev}}}
 	}
 	after, _ := kv.GetTimestampOracle(context.Background())
 	if !lib.WaitUntil(3*time.Second, func() bool { return p2.b.GetCurrentRevision() >= ea.creRev }) {
